@@ -1,18 +1,21 @@
 #!/bin/bash
 # usage: [DEMO=1] [PATCH=file] tools/try_seed.sh <dir with patch.diff [run.sh]> <PROP> [more props...]
-# Applies the patch to /repo, runs the quick checks, optionally the demo, and reverts.
-D=$1; shift
+# Applies the patch to a scratch copy of /repo's sources (never to /repo itself), runs the quick checks on that copy and
+# optionally the demo (patched and clean), then removes the copy.
+D=$(readlink -f "$1"); shift
 PATCH=${PATCH:-$D/patch.diff}
-cd /repo || exit 2
-if ! git diff --quiet; then echo "/repo has local changes - refusing"; exit 2; fi
-if ! git apply --check "$PATCH" 2>/tmp/apply.err; then echo "PATCH DOES NOT APPLY"; cat /tmp/apply.err; exit 3; fi
-git apply "$PATCH"
+S=$(mktemp -d /tmp/qv-seedtree-XXXXXX)
+trap 'rm -rf "$S"' EXIT
+cp -r /repo/src /repo/include /repo/CMakeLists.txt "$S"/ 2>/dev/null
+cp -r /repo/tests "$S"/ 2>/dev/null
+if ! (cd / && git apply --unsafe-paths --directory="$S" "$PATCH" 2>/tmp/apply.err); then echo "PATCH DOES NOT APPLY"; cat /tmp/apply.err; exit 3; fi
 cd /verif
 for P in "$@"; do
-  QV_EVIDENCE_DIR=/tmp/qv-evidence-scratch python3 run.py check $P --root /repo > /tmp/seed_$P.out 2>&1; rc=$?
+  QV_EVIDENCE_DIR=/tmp/qv-evidence-scratch/$P python3 run.py check $P --root "$S" > /tmp/seed_$P.out 2>&1; rc=$?
   echo "== $P rc=$rc"; grep -E "^DIAG|ANALYSIS-BROKEN" /tmp/seed_$P.out | cut -c1-300
 done
-if [ -n "$DEMO" ] && [ -x "$D/run.sh" ]; then (cd "$D" && timeout 900 ./run.sh /repo >/tmp/seed_demo.out 2>&1; echo "demo(patched) rc=$?"); fi
-git -C /repo checkout -- . ; git -C /repo status --short | grep -v "^??"
-if [ -n "$DEMO" ] && [ -x "$D/run.sh" ]; then (cd "$D" && timeout 900 ./run.sh /repo >/tmp/seed_demo0.out 2>&1; echo "demo(clean) rc=$?"); fi
+if [ -n "$DEMO" ] && [ -x "$D/run.sh" ]; then
+  (cd "$D" && timeout 900 ./run.sh "$S" >/tmp/seed_demo.out 2>&1; echo "demo(patched) rc=$?")
+  (cd "$D" && timeout 900 ./run.sh /repo >/tmp/seed_demo0.out 2>&1; echo "demo(clean) rc=$?")
+fi
 exit 0
